@@ -265,7 +265,7 @@ func c04Run(r *sim.Run) {
 	if t.Chance(500) {
 		if units, err := work.ParseUnits(x); err == nil {
 			repair := t.Bool()
-			ops := work.Transport(r, &units, 1+t.Draw(3), t.Chance(700), []string{"drop", "dup", "swap", "move", "splice", "drop", "shrink-table", "shrink-table", "largesize"})
+			ops := work.Transport(r, &units, 1+t.Draw(3), t.Chance(700), []string{"drop", "dup", "swap", "move", "splice", "drop", "shrink-table", "shrink-table", "largesize", "version"})
 			x = work.Serialize(units, repair)
 			desc = append(desc, fmt.Sprintf("transport(repair=%v)%v", repair, ops))
 			if !repair {
